@@ -527,7 +527,8 @@ class StackWorld(object):
     for ep in self.net.by_index:
       for conn in ep.conns:
         st = conn.state
-        if st and st.get('buf') and not (conn.dead or conn.client_closed or conn.silent):
+        if st and st.get('buf') and not (conn.dead or conn.client_closed or conn.silent
+                                         or getattr(conn, 'writes_in_progress', 0) or conn.c2s):
           REC.violation('C13' if self.stack == 'mux' else 'C14', 'stream_residue',
                         'conn %s: %d unparsed bytes at the end of a healthy stream' % (conn.id, len(st['buf'])))
     # (b) outcomes
@@ -790,7 +791,10 @@ class StackWorld(object):
         continue
       heal, prev_mode = heal
       # a connect that was black-holed is only given up by the kernel after 127 s
-      window_start = heal + mx + 1.0 + (128.0 if prev_mode == 'blackhole' else 0.0)
+      # (a connect that started while the endpoint was black-holed keeps hanging
+      # through later refuse/up phases: no SYN is retransmitted after 63 s)
+      bh_ends = [t1 for (t0, t1, mode) in self.down_windows(i) if mode == 'blackhole' and t1 <= heal + 1e-6]
+      window_start = max([heal] + [t1 + 128.0 for t1 in bh_ends]) + mx + 1.0
       calls_in = [c for c in self.tracker.order if c.t >= window_start]
       if len(calls_in) < 40:
         continue
@@ -805,7 +809,13 @@ class StackWorld(object):
 
   def check_c18(self):
     tr = self.tracker
-    agg = VarzAggregator.Aggregate(VarzReceiver.VARZ_DATA, VarzReceiver.VARZ_METRICS)
+    try:
+      agg = VarzAggregator.Aggregate(VarzReceiver.VARZ_DATA, VarzReceiver.VARZ_METRICS)
+    except RuntimeError as e:
+      # Aggregate yields between metrics; the client is still alive behind it
+      REC.violation('C18', 'aggregate_raised', 'Aggregate() raised %s: %s while the client was running' % (
+        type(e).__name__, e))
+      return
     key = ('svc', None)
 
     def total(metric):
